@@ -66,6 +66,18 @@ RULES = [
     dict(name='rep_min_max', cxx="rep_min_max< 1, 3, one< 'a' > >", need=4, single=True),
     dict(name='must', cxx="seq< A1, must< B1 > >", need=2, single=True),
 ]
+# one rule per remaining peek family (each has its own in.size( n ) request, i.e. its own way to ask the buffer for look-ahead): a unit that straddles the
+# end of the buffered data must be completed by require(), whatever the read sizes
+RULES_PEEK = [
+    dict(name='uint16_be_any', cxx='uint16_be::any', need=2),
+    dict(name='uint16_le_one', cxx='uint16_le::one< 0x6261 >', need=2),
+    dict(name='uint32_be_any', cxx='uint32_be::any', need=4),
+    dict(name='mask_uint16_be', cxx='uint16_be::mask_one< 0xff7f, 0x6162 >', need=2),
+    dict(name='uint8_any', cxx='uint8::any', need=1, single=True),
+    dict(name='mask_uint8', cxx='uint8::mask_one< 0x7f, 0x61 >', need=1, single=True),
+    dict(name='utf16_be_any', cxx='utf16_be::any', need=4),
+    dict(name='utf32_le_any', cxx='utf32_le::any', need=4),
+]
 RULE_UNTIL = dict(name='until', cxx="until< one< 'b' > >", ok='(s0.c+first_b(s0.byte)+1>M_)')
 # grammars that discard where nothing can backtrack (top-level rewind_mode::optional as in tao::pegtl::parse(), no action with input above the discard):
 # arbitrarily long input through a small buffer; overflow only if the very first request does not fit or maximum = 0 (documented: eof needs a free byte)
@@ -88,11 +100,11 @@ def plan(ctx):
     long_ = ({'NSETUP': 5, 'SETUP_SHAPE': '{0,1,3,0,1}', 'SETUP_ONE_READ': 1}, 'require(a1); bump(k1); discard() or bump(k2); require(a3); bump(k3)')
     if quick:
         op_cfgs = [(2, 2, OPS, short), (2, 3, ('discard',), short), (1, 2, ('require', 'empty', 'rewind'), short), (1, 3, ('discard',), short), (4, 2, ('require', 'discard'), short)]
-        rule_cfgs = [(2, 2, RULES, short)]
+        rule_cfgs = [(2, 2, RULES + RULES_PEEK, short)]
     else:
         op_cfgs = ([(1, m, OPS, short) for m in (2, 3, 4)] + [(2, m, OPS, short) for m in (1, 2, 3)] + [(4, m, OPS, short) for m in (0, 1, 2)] +
                    [(4, 3, ('discard',), short), (1, 2, ('require', 'discard', 'rewind'), long_), (2, 2, ('require', 'discard', 'rewind'), long_)])
-        rule_cfgs = [(2, 2, RULES + [RULE_UNTIL], short), (1, 3, RULES, short), (4, 1, RULES, short), (2, 0, RULES[:1] + RULES[6:7], short), (1, 2, RULES_DISCARD, short), (2, 1, RULES_DISCARD, short)]
+        rule_cfgs = [(2, 2, RULES + RULES_PEEK + [RULE_UNTIL], short), (1, 3, RULES + RULES_PEEK, short), (4, 1, RULES + RULES_PEEK, short), (2, 0, RULES[:1] + RULES[6:7], short), (1, 2, RULES_DISCARD, short), (2, 1, RULES_DISCARD, short)]
 
     def common(chunk, mx, sh):
         shape, shape_txt = sh
